@@ -80,8 +80,20 @@ def split_exec(out):
     return d
 
 def ctx_items(c):
+    """'C{hex=value;hex=F3;...}' -> [(hexname, value-text)]"""
     body = c[2:-1]
-    return [tuple(kv.split("=", 1)) for kv in body.split(";")] if body else []
+    out = []
+    cur = Cur(body)
+    while cur.p < len(body):
+        k = cur.until("="); cur.eat("=")
+        st = cur.p
+        if cur.peek() == "F":
+            cur.until(";")
+        else:
+            p_value(cur)
+        out.append((k, body[st:cur.p]))
+        if cur.peek() == ";": cur.eat(";")
+    return out
 
 def exec_equal(impl, model):
     """compare one EXEC result; returns (equal, abstained)"""
